@@ -1,7 +1,13 @@
 """C19 runner: drives the REAL run_file_generators(...).new_files(), PCDeployerJob.parse_result and
 pc_diff/UnifiedFileDiffer on synthesised Entire generator classes.
 
-case  = {"gens": [{"path","prio","out","reload","safe"}...]  (listing order),
+case  = {"gens": [{"path","prio","out","reload","safe"[,"kind"]}...]  (listing order),
+         kind (default "ok"): how the generator class behaves for the device
+           ok          run() returns the text            ok_yield   run() yields the lines of the text
+           unsupported supports_device() is False        path_none  path() returns None
+           path_nsd    path() raises NotSupportedDevice
+           nsd         run() raises NotSupportedDevice   nsd_late   run() yields a line, then raises it
+           run_none    run() returns None (Entire.__call__ raises: the whole run fails)
          "etck": bool, "safe": bool, "old": {path: str|None}, "mode": "no"|"yes"|"force"}
 reply = {"new": [[path, output, reload]...], "new_safe": [...],
          "deploy": None | {"files": [[path, text]...], "cmds": [[path, text]...]},
@@ -21,7 +27,7 @@ from annet.annlib.command import CommandList  # noqa: E402
 from annet.annlib.netdev.views.hardware import HardwareView  # noqa: E402
 from annet.annlib.output import LABEL_NEW_PREFIX  # noqa: E402
 from annet.api import DeployerJob, PCDeployerJob  # noqa: E402
-from annet.generators import Entire, run_file_generators  # noqa: E402
+from annet.generators import Entire, NotSupportedDevice, run_file_generators  # noqa: E402
 from annet.types import OldNewResult  # noqa: E402
 
 
@@ -72,11 +78,29 @@ class _Device:
 def make_gen(idx, spec):
     path, prio, out, reload, safe = spec["path"], spec["prio"], spec["out"], spec["reload"], spec["safe"]
 
+    kind = spec.get("kind", "ok")
+
     def _path(self, device):
+        if kind == "path_none":
+            return None
+        if kind == "path_nsd":
+            raise NotSupportedDevice("path of Gen%d" % idx)
         return path
 
     def _run(self, device):
+        if kind == "nsd":
+            raise NotSupportedDevice("Gen%d" % idx)
+        if kind == "run_none":
+            return None
         return out
+
+    def _run_lines(self, device):
+        lines = out.split("\n")
+        yield lines[0]
+        if kind == "nsd_late":
+            raise NotSupportedDevice("Gen%d" % idx)
+        for ln in lines[1:]:
+            yield ln
 
     def _reload(self, device):
         if reload == "":
@@ -86,8 +110,11 @@ def make_gen(idx, spec):
     def _is_safe(self, device):
         return safe
 
-    cls = type("Gen%d" % idx, (Entire,), {"path": _path, "run": _run, "reload": _reload,
-                                          "is_safe": _is_safe, "prio": prio})
+    ns = {"path": _path, "run": _run_lines if kind in ("ok_yield", "nsd_late") else _run, "reload": _reload,
+          "is_safe": _is_safe, "prio": prio}
+    if kind == "unsupported":
+        ns["supports_device"] = lambda self, device: False
+    cls = type("Gen%d" % idx, (Entire,), ns)
     return cls(_STORAGE)
 
 
